@@ -411,6 +411,7 @@ def run_case(case: dict) -> dict:
         Env.transports, Env.dumpcaps, Env.ecus = [], [], []
         Env.n_close = Env.n_props = 0
         Env.cmd = None
+        Env.busy = None
         del cap.items[:]
         del added[:]
         kw = {}
@@ -629,9 +630,56 @@ def run_case(case: dict) -> dict:
                     wrap_call(n)
                 for n in ("execute", "executescript", "commit"):
                     wrap_op(n)
+            # contention: when the run enters the named database call another writer (a second sqlite connection on the same file,
+            # standing in for a second gallia process that logs into the same --db) takes the write lock, writes, and commits
+            # `hold` ms later - on a timer thread of its own, whatever the run does meanwhile
+            dbb = case.get("dbbusy")
+            Env.busy = None
+            if dbb:
+                busy = Env.busy = {"established": False, "timeout_ms": None, "timer": None, "released": threading.Event()}
+                bname = C15_DBCALLS[dbb["phase"]]
+                borig = getattr(DBHandler, bname)
+
+                def take():
+                    other = sqlite3.connect(root / "db" / "gallia.sqlite", timeout=0.05, isolation_level=None, check_same_thread=False)
+                    try:
+                        other.execute("BEGIN IMMEDIATE")
+                        other.execute("INSERT OR IGNORE INTO address(url) VALUES('isotp://the-other-process')")
+                    except sqlite3.Error as e:
+                        busy["error"] = repr(e)
+                        other.close()
+                        return
+
+                    def give():
+                        try:
+                            other.execute("COMMIT")
+                            other.close()
+                        except Exception as e:  # noqa
+                            busy["release_error"] = repr(e)
+                        busy["released"].set()
+
+                    busy["established"] = True
+                    busy["timer"] = threading.Timer(dbb["hold"] / 1000.0, give)
+                    busy["timer"].daemon = True
+                    busy["timer"].start()
+
+                async def busy_call(self_, *a, **k):
+                    if busy.get("entered") is None and asyncio.current_task() is main_task:
+                        busy["entered"] = True
+                        try:   # how long this connection is prepared to wait
+                            async with self_.connection.execute("PRAGMA busy_timeout") as cur:
+                                busy["timeout_ms"] = int((await cur.fetchone())[0])
+                        except Exception as e:  # noqa
+                            busy["timeout_error"] = repr(e)
+                        take()
+                    return await borig(self_, *a, **k)
+                setattr(DBHandler, bname, busy_call)
+                undo.append((DBHandler, bname, borig))
             try:
                 return await cmd.entry_point()
             finally:
+                if Env.busy is not None:
+                    Env.busy["still_held_at_the_end"] = Env.busy["established"] and not Env.busy["released"].is_set()
                 for obj, n, orig in undo:
                     setattr(obj, n, orig)
                 DBHandler.disconnect = real_disconnect
@@ -667,6 +715,12 @@ def run_case(case: dict) -> dict:
             watchdog.cancel()
         release("after-the-run")   # the run never waited for us
 
+        if getattr(Env, "busy", None) is not None:   # the other writer is through before the database is looked at
+            b = Env.busy
+            if b["timer"] is not None:
+                b["timer"].join(case["dbbusy"]["hold"] / 1000.0 + 3)
+            obs["busy"] = {k: v for k, v in b.items() if k not in ("timer", "released", "entered")}
+            obs["busy"]["released"] = b["released"].is_set() or not b["established"]
         # ---- trace -------------------------------------------------------------------------------
         tr = [l for l in Env.trace.read_text().split("\n") if l]
         if rel["n_before"]:   # actions performed while somebody else still had the lock: the lock was not ours
